@@ -6,14 +6,14 @@
     yash-builtin/src/export.rs, readonly.rs    `main` (the adjustment of the `SetVariables` command)
     yash-builtin/src/unset/semantics.rs        `unset_variables`
 
-  generically over the state (`Iface` of Script.lean: the Rust model `VariableSet` and the Spec `SSet`).
+  generically over the state (`Iface` of ScriptBase.lean: the Rust model `VariableSet` and the Spec `SSet`).
   `Script.lean` describes what the statements `T`, `L`, `G`, `E`, `EX`, `R`, `U` of the script leg do in
   its own words; `BuiltinGlue.lean` proves that these descriptions are the functions below, and the
   tables of `Generated/VariableTables.lean` (re-extracted from the sources on every run) are proved to
   be the ones these functions implement.  Not modelled: the `Portable` option (name restrictions),
   functions (`-f`), printing (`-p`: `printLines` of Script.lean), error messages.  Import-free, executable.
 -/
-import YashModel.Variable.Script
+import YashModel.Variable.ScriptBase
 import YashModel.Generated.VariableTables
 namespace YashModel.Variable
 
@@ -208,6 +208,9 @@ def builtinTablesOk : Bool :=
     [("export", vattrName .export, true, tscopeName .global),
      ("readonly", vattrName .readOnly, true, tscopeName .global)] &&
   Generated.VariableTables.unsetVariablesScope == scopeName .global &&
+  -- `for`, `${n=w}`, `$((n=…))`, `read`, `getopts`: the `Global` scope of Script.lean's `write` statements
+  Generated.VariableTables.writePathScopes ==
+    ["for", "switch_assign", "arith", "read", "getopts"].map (fun k => (k, scopeName .global)) &&
   Generated.VariableTables.builtinTypes ==
     [(":", "Special"), ("export", "Special"), ("readonly", "Special"), ("set", "Special"),
      ("typeset", "Elective"), ("unset", "Special")]
